@@ -31,7 +31,7 @@ func c16Replies(c *vk.Ctx) {
 	for code := 0; code < pow(harness.C16Msgs, 2); code++ {
 		jobs = append(jobs, Job{Harness: "StorageSeq", Bound: -1, BudgetS: 60, FallbackDelay: 3, Params: map[string]int{"store": 0, "L": 2, "code": code}})
 	}
-	core := []int{0, 2, 4, 6, 8, 10, 12}
+	core := []int{0, 2, 4, 6, 8, 10, 12, 13}
 	for _, a := range core {
 		for _, b := range core {
 			for _, d := range core {
@@ -65,7 +65,7 @@ func c16Replies(c *vk.Ctx) {
 			}
 		}
 	}
-	c.P.Rule = "E1: every client message sequence up to length 3/4 over 13 messages (EVENT new / same again / newer version / older version / deletion request / ephemeral; REQ all / filtered / limit 1 / with an undecodable id, for which the SQLite query fails; COUNT; CLOSE; AUTH) through the real CacheHandler.ServeNostr (canonical schedule; all schedules for every length-2 sequence and a 7-message core at length 3) and up to length 2/3 through the real SQLite handler (in-memory database, stepwise with quiescence after each message; pipelined: every schedule of writer, session, reader and the bulk-insert goroutine behind its 2-slot queue, for all sequences of length 2 and 3, and of length 4 over the core in the thorough tier); oracle: the reply stream is the concatenation, in request order, of the per-request replies"
+	c.P.Rule = "E1: every client message sequence up to length 3/4 over 14 messages (EVENT new / same again / newer version / older version / deletion request / ephemeral; REQ all / filtered / limit 1 / two filters of which one has limit 0 / with an undecodable id, for which the SQLite query fails; COUNT; CLOSE; AUTH) through the real CacheHandler.ServeNostr (canonical schedule; all schedules for every length-2 sequence and an 8-message core at length 3) and up to length 2/3 through the real SQLite handler (in-memory database, stepwise with quiescence after each message; pipelined: every schedule of writer, session, reader and the bulk-insert goroutine behind its 2-slot queue, for all sequences of length 2 and 3, and of length 4 over the core in the thorough tier); oracle: the reply stream is the concatenation, in request order, of the per-request replies"
 	res := runJobs(c, jobs)
 	for i, r := range res {
 		if i%700 == 0 {
